@@ -19,9 +19,9 @@ theorem sim_all {env : Env} {file : AFile} {G : List String} {P : Prog} {F : GFi
     have b := stepB hl n
     have v := stepV hl ih.u ih.b
     have l := stepL ih.a ih.l
-    have c := stepC v ih.a l
+    have c := stepC hl v ih.a l ih.me ih.mv ih.mu
     have a := stepA c ih.v ih.c ih.a
-    ⟨u, b, v, a, c, l⟩
+    ⟨u, b, v, a, c, l, stepME hl ih.a ih.me, stepMV hl ih.a ih.mv, stepMU ih.a⟩
 
 /-- the `Sem` program of an ANF file -/
 def progOf (file : AFile) : Prog := { fns := file.map AFn.toFn }
@@ -112,12 +112,12 @@ theorem compileFn_name (env : Env) (st : St) (g : AFn) : (compileFn env st g).1.
 theorem link_of_closed {env : Env} {file : AFile} {n : Nat} {G : List String} (h : closedOK env file n G = true)
     {P : Prog} (hP : P.fns = file.map AFn.toFn) : Link env file G P (goFilePreSt env file n).1 := by
   simp only [closedOK, fileOK, Bool.and_eq_true] at h
-  obtain ⟨⟨⟨⟨⟨⟨hndF, hndS⟩, hnb⟩, hres⟩, hstr⟩, htab⟩, hchk⟩ := h
+  obtain ⟨⟨⟨⟨⟨⟨⟨hndF, hndS⟩, hnb⟩, hres⟩, hstr⟩, htab⟩, hetab⟩, hchk⟩ := h
   have hndF := of_decide_eq_true hndF
   have hndS := of_decide_eq_true hndS
   have hfuncs := funcs_goFilePre env file n
   refine ⟨⟨fun b g hb => ?_, fun r hr => ?_⟩, fun g hg _ => findFn_progOf hP hndS hg, fun g hg hG => ?_, fun b hb => ?_,
-    hstr, fun n hn => List.all_eq_true.mp htab n hn⟩
+    ⟨hstr, fun n hn => List.all_eq_true.mp htab n hn, fun n hn => List.all_eq_true.mp hetab n hn⟩⟩
   · simp only [GFile.findFunc] at hb ⊢
     rw [hfuncs, List.find?_append, hb]; rfl
   · have := List.all_eq_true.mp hres r hr
